@@ -26,6 +26,8 @@ FLAVOURS = {
                  "-fno-sanitize=object-size", "-fno-sanitize-recover=all"],
                  ld=["-fsanitize=fuzzer,address,undefined"]),
     "cov":  dict(cxx="g++", flags=["-O0", "--coverage"], ld=["--coverage"]),
+    # source-based coverage (clang): unlike gcov it also reports inline members that no translation unit ever called
+    "covc": dict(cxx="clang++-14", flags=["-O0", "-fprofile-instr-generate", "-fcoverage-mapping"], ld=["-fprofile-instr-generate"]),
 }
 
 def _sha(paths, extra=""):
@@ -159,6 +161,15 @@ def harness(src, flavour, extra_flags=(), extra_ld=(), name=None):
             if old.startswith("h_%s_" % name):
                 os.unlink(os.path.join(L["dir"], old))
         incs = sum((["-I", i] for i in L["inc"] + [VERIF]), [])
+        if L["cxx"].startswith("clang") and flavour == "covc":
+            # clang does not search gcc's private include directory: expose quadmath.h (and nothing else) from it
+            qd = os.path.join(CACHE, "qinc"); os.makedirs(qd, exist_ok=True)
+            ql = os.path.join(qd, "quadmath.h")
+            if not os.path.exists(ql):
+                cand = subprocess.run(["g++", "-print-file-name=include/quadmath.h"], stdout=subprocess.PIPE, text=True).stdout.strip()
+                try: os.symlink(cand, ql)
+                except FileExistsError: pass
+            incs += ["-I", qd]
         tmp = exe + ".tmp%d" % os.getpid()
         _run([L["cxx"]] + L["flags"] + list(extra_flags) + incs + [srcp, L["lib"]] + L["ld"] +
              list(extra_ld) + ["-lquadmath", "-lmpfr", "-lgmp", "-lpthread", "-o", tmp],
